@@ -216,7 +216,7 @@ theorem C02_http_server_ok_only_if_nil (e : Option HErr) : trailerCode e = 0 →
   | none => rfl
   | some x =>
     cases x with
-    | status c => simp only [trailerCode] at h; split at h <;> simp_all
+    | status c => simp only [trailerCode, Gen.streamOkRewrite] at h; split at h <;> simp_all
     | plain => simp [trailerCode] at h
     | ctx r => cases r <;> simp [trailerCode, codeOf] at h
 
@@ -259,9 +259,10 @@ open InprocStream (HErr Reason Res codeOf)
     map to Canceled / DeadlineExceeded, other errors to Unknown), whatever HTTP status the renderer
     chose and whether or not the request context was done. -/
 theorem C02_http_unary_error_outcome (ops : List HOp) (e : HErr) (ctxDone : Bool) :
-    (client (serve ops (.err e) ctxDone).1).result = .status (HttpServerStream.trailerCode (some e)) := by
-  have hne := trailerCode_ne_zero e
-  simp [serve, client, hne]
+    (client (serve ops (.err e) ctxDone).1).result = .status (unaryCode e) ∧ unaryCode e ≠ 0 ∧
+    unaryCode e = HttpServerStream.trailerCode (some e) := by
+  have hne := unaryCode_ne_zero e
+  exact ⟨by simp [serve, client, hne], hne, unaryCode_eq_trailerCode e⟩
 
 /-- a response reaches the caller as that response -/
 theorem C02_http_unary_success_outcome (ops : List HOp) (m : Nat) (ctxDone : Bool) :
@@ -274,5 +275,14 @@ theorem C02_http_unary_unencodable_is_error (ops : List HOp) (m : Nat) (ctxDone 
     ∃ c, c ≠ 0 ∧ (client (serve ops (.resp m false) ctxDone).1).result = .status c := by
   have h500 : Codes.codeFromHttpStatus 500 ≠ 0 := by decide
   exact ⟨Codes.codeFromHttpStatus 500, h500, by simp [serve, client, h500]⟩
+
+end HttpUnary
+
+namespace HttpUnary
+
+/-- regenerated from the source: both handlers rewrite a non-nil error whose status says OK to
+    Internal, and the stream handler sanitises the status message for the proto3 trailer -/
+theorem C02_http_ok_rewrite_facts :
+    Gen.streamOkRewrite = true ∧ Gen.unaryOkRewrite = true ∧ Gen.streamMessageSanitised = true := by decide
 
 end HttpUnary
